@@ -72,6 +72,12 @@ CHECKS["C17"] = dict(
    note="Trusted: vf/refconds.py, vf/sem.py, CLARABEL.",
    design="DESIGN.md §3 C17")
 
+CHECKS["C15"] = dict(
+   technique="property-based testing (Hypothesis): generated partitions / points / get_block call sequences with one or two build-only solves; oracles = sum-back and idempotence through an independent evaluator, rank (span) comparison of the sent relations with independently derived orthogonality relations, real coordinate partitions of R^n",
+   text="Generated-input search over numbers of blocks, leaf and combination points (incl. the null gradient), call orders with repeats and decompositions between two solves: blocks sum back to the point, repeated calls return the same objects, one block is the identity, the relations sent at each solve are equalities whose span equals the span of all cross-block inner products of all decomposed points (nothing missing, nothing else, no growth), and real coordinate projections satisfy them.",
+   note="Trusted: vf/sem.py, numpy matrix_rank. Block-smooth functions on real block-smooth members are covered in C03 / C04.",
+   design="DESIGN.md §3 C15")
+
 NOT_APPLICABLE = []
 
 def main():
